@@ -40,7 +40,8 @@ impl Check for C09 {
         }
     }
     fn run_case(&self, ctx: &Ctx, idx: u64, out: &mut Outcome) {
-        let profile = profiles::mixed();
+        // every third history puts the weight on the introspection registry
+        let profile = if idx % 3 == 1 { profiles::mixed_intro() } else { profiles::mixed() };
         let mk = || Rng::derive(ctx.seed, 0xC09, idx);
         // every fourth history: no injected fault, ends with a broker shutdown instead
         if idx % 4 == 3 {
